@@ -543,11 +543,17 @@ def suite_listeners(tier, seed, only):
 # registry + CLI
 # ------------------------------------------------------------------------------------------------
 
+import suite_faults  # noqa: E402
+import suite_teardown  # noqa: E402
+import suite_handshake  # noqa: E402
+
 SUITES = {
     "matrix": suite_matrix,
     "udp": suite_udp,
     "listeners": suite_listeners,
-    # extension points: "faults": suite_faults, "teardown": suite_teardown, "handshake": suite_handshake
+    "faults": suite_faults.suite_faults,
+    "teardown": suite_teardown.suite_teardown,
+    "handshake": suite_handshake.suite_handshake,
 }
 
 
@@ -564,6 +570,7 @@ def main(argv=None):
     ap.add_argument("--no-build", action="store_true", help="skip the cargo build (binaries must exist)")
     a = ap.parse_args(argv)
     WORKERS, DEADLINE = a.workers, a.deadline
+    T.SETTINGS["workers"], T.SETTINGS["deadline"] = a.workers, a.deadline
     T.install_signal_handlers()
     t0 = time.monotonic()
     b = T.build_binaries(build=not a.no_build)
